@@ -764,6 +764,7 @@ def execute(sc, prop):
         # re-ordering in the history belongs to C01
         if nreorder == 0:
             viol = [v for v in viol if v['invariant'].startswith(('reorder', 'ordered'))]
-    return dict(violations=viol, digest=digest(repr(shape)), nontrivial=nonempty[0] > 0, faults={}, probes=w.probes,
+    return dict(violations=viol, digest=digest(repr(shape)), nontrivial=nonempty[0] > 0,
+                faults={k_: w.probes[k_] for k_ in ('cache_fill_simulated_tid', 'cache_find_all_threads_gt1') if w.probes.get(k_)}, probes=w.probes,
                 sim=float(rounds), inconclusive=False,
                 stratum='%s/%s/%s' % (cls, 'cross' if narr > 1 else 'single', dim))
